@@ -25,6 +25,12 @@ CLAIMED = {
  "C11": ("6/C11", "deterministic simulation: test-scope histories with quiescent and concurrent snapshots compared with a reference ledger",
          "Seeded search over record histories on a test scope and derived scopes with snapshots taken concurrently and at quiescence; a quiescent snapshot must equal the reference ledger exactly (keys, names, tags, counter sums, last gauge bits, timer values, every bucket incl. empty ones and duplicated bounds), a concurrent one must lie between completed and invoked increments, a snapshot must not change after later recording, mutating it must not affect the scope, closed test subscopes stay visible. Exploration; the snapshot contents are input-dominated, the simulator adds the concurrent snapshots and seeded map order.",
          "As C01. Names and tags avoid the key format's delimiter characters (see known finding D3b)."),
+ "C03": ("6/C03", "deterministic simulation: record/report histories with boundary-biased seeded specs and samples; tiling + per-bucket conservation oracle against a reference bucket model",
+         "Seeded generation of bucket specifications (value/duration, unsorted, duplicated, negative, single, nil) and samples (each bound, one ulp / ns either side, extremes, +-Inf, NaN, wrong kind), recorded concurrently with report passes on plain, cached and test scopes; the buckets handed to the reporter must tile the line and equal the reference tiling, every sample must be delivered in the one bucket the reference model names (NaN: at most one), per-bucket counts are conserved, nothing panics. Exploration; which bucket a sample belongs to is a pure function of the input (covered by generation only), the simulator contributes record||report histories, the two reporter paths and conservation.",
+         "As C01; reference bucket model written from the statement (first upper bound >= sample)."),
+ "C20": ("6/C20", "deterministic simulation: concurrent histogram creation with bucket sets built to collide in the shared bucket cache; per-histogram tiling oracle + caller-slice immutability",
+         "Several tasks create histograms under one root at the same time with permutations of one set, sets with equal sums of bit patterns and value/duration sets of equal identity, some sharing one caller slice; each histogram must deliver exactly the tiling of the bounds it was created with, and BucketPairs / Histogram never modify the caller's slice. Exploration. Claimed for the keeps-its-bounds and never-modifies clauses only: the constructor clauses (recurrence, rejected arguments, Must* panics) are pure functions and not part of what this check decides.",
+         "As C03."),
 }
 
 NOT_APPLICABLE = {
